@@ -16,8 +16,11 @@ from pathlib import Path
 from lib import coqrun
 
 VERIF = Path(__file__).resolve().parent.parent
-EVIDENCE = VERIF / 'evidence'
-REPLAYS = VERIF / 'replays'
+# VERIF_OUT redirects evidence and replays (used by tools/try_mutant.sh so that trying a seeded change leaves
+# the committed evidence alone); unset in every registered command
+_OUT = Path(os.environ['VERIF_OUT']) if os.environ.get('VERIF_OUT') else VERIF
+EVIDENCE = _OUT / 'evidence'
+REPLAYS = _OUT / 'replays'
 KNOWN = VERIF / 'known_findings.json'
 
 # property -> harness module (each module serves a group of properties)
